@@ -36,7 +36,13 @@ const MODELS: [&str; 4] = [
     "2016_CHEVROLET_Volt_Charge_Depleting.bin",
     "2016_CHEVROLET_Volt_Charge_Sustaining.bin",
 ];
-const MODEL_DIR: &str = "/repo/rust/routee-compass-powertrain/src/routee/test";
+/// root of the source tree under test (`VERIF_REPO`, default /repo): model files and bundled configuration
+fn repo() -> String {
+    std::env::var("VERIF_REPO").unwrap_or_else(|_| "/repo".to_string())
+}
+fn model_dir() -> String {
+    format!("{}/rust/routee-compass-powertrain/src/routee/test", repo())
+}
 const REL: f64 = 1.0e-9;
 
 /// canonical double: both zeros are `0`
@@ -594,14 +600,18 @@ fn oracle_linear(ctx: &mut Ctx, idx: usize, tag: &str, t: &Table, pts: &Points, 
 
 fn case_fni(ctx: &mut Ctx, idx: usize, g: Vec<f64>, t: f64) {
     let r = catch_unwind(AssertUnwindSafe(|| find_nearest_index(&g, t)));
-    // `arr.len() - 2` on a one-point grid: a panic with overflow checks, usize::MAX without them;
-    // both are the model's `panic` (underflow) outcome
     let out = match &r {
-        Ok(Ok(i)) if *i >= g.len() => "panic".to_string(),
         Ok(Ok(i)) => format!("ok {}", i),
         Ok(Err(_)) => "err".to_string(),
         Err(_) => "panic".to_string(),
     };
+    // regression (fixed): a one-point grid hit exactly underflowed `arr.len() - 2` (panic with overflow
+    // checks, usize::MAX without); more generally the lookup never panics and never leaves the grid
+    match &r {
+        Ok(Ok(i)) if *i >= g.len() => ctx.fail(idx, "find_nearest_index/single_point_underflow", format!("grid {:?} target {} gave the out-of-range index {}", g, t, i)),
+        Err(_) => ctx.fail(idx, "find_nearest_index/single_point_underflow", format!("grid {:?} target {} panicked", g, t)),
+        _ => {}
+    }
     ctx.emit(idx, format!("fni {} {}", flist(&g), fbits(t)), out);
     ctx.count("fni");
     ctx.nontrivial(&format!("fni {} {}", flist(&g), fbits(t)));
@@ -616,12 +626,15 @@ fn case_fni(ctx: &mut Ctx, idx: usize, g: Vec<f64>, t: f64) {
 
 fn case_lin(ctx: &mut Ctx, idx: usize, a: f64, b: f64, n: usize) {
     let r = catch_unwind(AssertUnwindSafe(|| linspace(a, b, n)));
-    // n = 0: `n - 1` underflows: a panic with overflow checks, an empty vector without them
     let out = match &r {
-        Ok(v) if n == 0 && v.is_empty() => "panic".to_string(),
         Ok(v) => format!("ok {} {}", v.len(), v.iter().map(|x| fo(*x)).collect::<Vec<_>>().join(" ")).trim_end().to_string(),
         Err(_) => "panic".to_string(),
     };
+    // regression (fixed): n = 0 underflowed `n - 1`
+    match &r {
+        Ok(v) if v.len() == n => {}
+        other => ctx.fail(idx, "linspace/zero_underflow", format!("linspace({}, {}, {}) gave {:?}", a, b, n, other.as_ref().map_err(|_| "panic"))),
+    }
     ctx.emit(idx, format!("lin {} {} {}", fbits(a), fbits(b), n), out);
     ctx.count("linspace");
     if let Ok(v) = &r {
@@ -731,13 +744,14 @@ struct Underlying {
     bundled: Vec<SgSpec>,
 }
 
-const BUNDLED_CONFIG: &str = "/repo/python/nrel/routee/compass/resources/osm_default_energy.toml";
-const BUNDLED_DIR: &str = "/repo/python/nrel/routee/compass/resources";
+fn bundled_dir() -> String {
+    format!("{}/python/nrel/routee/compass/resources", repo())
+}
 
 /// the `[[traversal.vehicles]]` entries that use `model_type.interpolate`, read with a line scanner
 /// (key = value pairs of the vehicle table and of its interpolate sub-table)
 fn bundled_vehicles() -> Vec<std::collections::BTreeMap<String, String>> {
-    let Ok(text) = std::fs::read_to_string(BUNDLED_CONFIG) else { return vec![] };
+    let Ok(text) = std::fs::read_to_string(format!("{}/osm_default_energy.toml", bundled_dir())) else { return vec![] };
     let mut out = vec![];
     let mut cur: Option<std::collections::BTreeMap<String, String>> = None;
     let mut in_vehicle = false;
@@ -804,7 +818,7 @@ fn train_stub(seed: u64, k: usize, dir: &str) -> String {
 
 impl Underlying {
     fn load(seed: u64, stubs: usize) -> Underlying {
-        let mut paths: Vec<String> = MODELS.iter().map(|m| format!("{}/{}", MODEL_DIR, m)).collect();
+        let mut paths: Vec<String> = MODELS.iter().map(|m| format!("{}/{}", model_dir(), m)).collect();
         for k in 0..stubs {
             paths.push(train_stub(seed, k, "work/C14_stub"));
         }
@@ -837,7 +851,7 @@ impl Underlying {
             ) else {
                 continue;
             };
-            let path = format!("{}/{}", BUNDLED_DIR, get("model_input_file"));
+            let path = format!("{}/{}", bundled_dir(), get("model_input_file"));
             let Ok(model) = SmartcoreSpeedGradeModel::new(&path, SpeedUnit::MilesPerHour, GradeUnit::Decimal, EnergyRateUnit::GallonsGasolinePerMile) else {
                 continue;
             };
@@ -981,15 +995,14 @@ fn case_sg(ctx: &mut Ctx, idx: usize, und: &Underlying, spec: &SgSpec, queries: 
     ctx.count(&format!("sg_model_units_{}_{}", spec.su, spec.gu));
     let model = match built {
         Err(_) => {
+            // never expected: the constructor returns an error for every degenerate configuration
+            ctx.fail(idx, "speed_grade/new_panics", format!("InterpolationSpeedGradeModel::new panicked for {}x{} bins, speed ({}, {}), grade ({}, {})", spec.sb, spec.gb, spec.s0, spec.s1, spec.g0, spec.g1));
             ctx.emit(idx, line, "new panic".to_string());
             ctx.count("sg_new_panics");
             return;
         }
         Ok(Err(_)) => {
-            // zero bins: `n - 1` underflow in linspace (panic with overflow checks, an empty grid that the
-            // constructor rejects without them): the model's `panic`
-            let out = if spec.sb == 0 || spec.gb == 0 { "new panic" } else { "new err" };
-            ctx.emit(idx, line, out.to_string());
+            ctx.emit(idx, line, "new err".to_string());
             ctx.count("sg_new_rejects");
             return;
         }
@@ -1016,12 +1029,10 @@ fn case_sg(ctx: &mut Ctx, idx: usize, und: &Underlying, spec: &SgSpec, queries: 
 
     // oracle
     if spec.sb < 2 || spec.gb < 2 {
-        for (q, r) in queries.iter().zip(&results) {
-            if let Err(Out::Panic) = r {
-                ctx.fail(idx, "speed_grade/single_bin_panics", format!("grid with {}x{} bins was accepted by new() but predict({} {}, {} {}) panics", spec.sb, spec.gb, q.s, q.su, q.g, q.gu));
-                break;
-            }
-        }
+        // regression (fixed): a grid with a single bin was accepted and every predict panicked; it must be
+        // rejected by new() (handled above), so reaching this point is the defect
+        let panics = results.iter().any(|r| matches!(r, Err(Out::Panic)));
+        ctx.fail(idx, "speed_grade/single_bin_panics", format!("grid with {}x{} bins was accepted by new(){}", spec.sb, spec.gb, if panics { " and predict panics" } else { "" }));
         return;
     }
     let scale = u.iter().flatten().fold(0.0f64, |m, v| m.max(v.abs()));
